@@ -51,6 +51,12 @@ var c04Extra = []string{
 	"{{ l|length }}{{ s|upper|lower }}{{ l|join:\",\" }}",
 }
 
+// programs for the write monitor only (C05): their output is random, what they write must still be their own
+var c05Extra = []string{
+	"{% lorem 2 w random %}{% lorem 1 p random %}{% lorem 1 b random %}",
+	"{{ l|random }}{% now \"2006\" %}",
+}
+
 func c04Programs() []string {
 	var names []string
 	for n := range tags {
@@ -170,9 +176,20 @@ func HarnessC04() {
 	set, _ := c04Setup(tb, ls)
 	tpl, err := c04Compile(set, prog)
 	verifAssert(err == nil, "program must compile")
+	// another template of the same set, full of the constructs the property leaves out for their
+	// randomness: what IT prints is not compared, but executing it must not change anybody else
+	noise, err := set.FromString("{% lorem 2 w random %}{% lorem 1 p random %}{% lorem 1 b random %}{% lorem 2 w %}{{ l|random }}")
+	verifAssert(err == nil, "noise template must compile")
 	o1, ok1 := c04Exec(tpl, d1)
+	kept, errb := tpl.ExecuteBytes(d1.ctx()) // a result the caller keeps while the template is used again
+	keptCopy := string(kept)
 	o2, ok2 := c04Exec(tpl, d2) // arbitrary other context in between, possibly failing
+	verifEnvFixed(true)
+	noise.Execute(d2.ctx())
+	verifEnvFixed(false)
 	o3, ok3 := c04Exec(tpl, d1)
+	verifAssert((errb == nil) == ok1 && (errb != nil || keptCopy == o1), "ExecuteBytes must give what Execute gives")
+	verifAssert(string(kept) == keptCopy, "the bytes returned by ExecuteBytes changed when the template was executed again")
 	verifObserve("first", o1)
 	verifObserve("third", o3)
 	verifAssert(ok1 == ok3, "equal contexts must produce equal errors on a compiled template")
@@ -219,7 +236,7 @@ func c05Known(prog string, tb, ls bool) {
 // state they allocated themselves, so every interleaving of k executions is
 // equivalent to a sequential one and each returns what it returns alone.
 func HarnessC05() {
-	progs := c04Programs()
+	progs := append(c04Programs(), c05Extra...)
 	prog := progs[verifChoice(len(progs))]
 	tb, ls := verifChoice(2) == 1, verifChoice(2) == 1
 	c05Known(prog, tb, ls)
@@ -252,10 +269,18 @@ func HarnessC05() {
 		return
 	}
 	d := c04SymData(verifParam("len", 2), prog)
+	verifEnvFixed(true) // what is written matters here, not which random word is printed
 	verifEpoch()
 	c04Exec(tpl, d)
 	set.FromCache("inc")
-	c04Exec(tpl, d)
+	kept, _ := tpl.ExecuteBytes(d.ctx())
+	keptCopy := string(kept)
+	dd := d // the next executions print something else
+	dd.s, dd.c, dd.l = "~", !d.c, append([]string{"~"}, d.l...)
+	c04Exec(tpl, dd)
+	w := &c14Writer{}
+	tpl.ExecuteWriter(dd.ctx(), w)
+	verifAssert(string(kept) == keptCopy, "the bytes returned by ExecuteBytes changed while the template was executed again")
 	verifMonitor("no-shared-writes")
 	verifMonitor("maps-locked")
 }
